@@ -486,13 +486,28 @@ func c19PatternKey(src *reSource) string { return fmt.Sprintf("%d:%s", src.Flags
 // was proved language-equivalent to RFC 6838 (wherever the match is written:
 // a validator function, a helper, or the packer itself).
 func c19Validated(p *sxPath, n int, a *c19Anchors, x sxVal) bool {
-	calls, srcs := c19PatternCalls(p, x)
-	for i, r := range calls {
-		if srcs[i] == nil || !a.rfcPatterns[c19PatternKey(srcs[i])] {
-			continue
+	direct := func(x sxVal) bool {
+		calls, srcs := c19PatternCalls(p, x)
+		for i, r := range calls {
+			if srcs[i] == nil || !a.rfcPatterns[c19PatternKey(srcs[i])] {
+				continue
+			}
+			if v, known := p.Fact(n, r.Result(0).key()); known && v {
+				return true
+			}
 		}
-		if v, known := p.Fact(n, r.Result(0).key()); known && v {
-			return true
+		return false
+	}
+	if direct(x) {
+		return true
+	}
+	// x is known equal to a string that matched (a pure re-validation of an identical value may be skipped)
+	for _, r := range p.Calls {
+		if r.Name == "(*regexp.Regexp).MatchString" && len(r.Args) > 0 {
+			y := r.Args[len(r.Args)-1]
+			if eq, known := p.KnownEq(n, x, y); known && eq && !sxSame(x, y) && direct(y) {
+				return true
+			}
 		}
 	}
 	return false
@@ -922,7 +937,7 @@ func c19R3(c *Ctx, a *c19Anchors) {
 				e := &pushes[i]
 				in := e.rec.Call.(ssa.Instruction)
 				key := pn + "|push-pair"
-				allowed := map[string]bool{"Annotations": true}
+				allowed := map[string]bool{"Annotations": true, "MediaType": true} // neither depends on the bytes
 				if e.kind == "manifest" {
 					allowed["ArtifactType"] = true
 					man = e
@@ -1141,10 +1156,7 @@ func c19R5(c *Ctx, a *c19Anchors) {
 						agg.fail(key, P, in, p, bad)
 					}
 				}
-				var descMT sxVal
-				if b, ok := sxBase(e.desc).(sxCall); ok && b.rec.Name == c19NNewDesc {
-					descMT = b.rec.Args[0]
-				}
+				descMT := c19DescMediaType(e.desc, descT)
 				descAT, _ := sxFieldByName(e.desc, descT, "ArtifactType")
 				wantMT := imageMT
 				if M == a.artifact {
@@ -1200,8 +1212,14 @@ func c19R5(c *Ctx, a *c19Anchors) {
 						if b, isCall := sxBase(cfg).(sxCall); isCall && b.rec.Name == c19NNewDesc {
 							an, _ := sxFieldByName(cfg, descT, "Annotations")
 							wantDefault := p.IsEmptyString(n, art)
-							mtArg := b.rec.Args[0]
-							okc = sxSame(an, cfgAnn) && len(sxOverridden(cfg)) <= 1 && (wantDefault && sxSame(mtArg, sxStr(unkCfg)) || !wantDefault && sxSame(mtArg, art))
+							mtArg := c19DescMediaType(cfg, descT)
+							only := true
+							for _, f := range sxOverridden(cfg) {
+								if f != "Annotations" && f != "MediaType" {
+									only = false
+								}
+							}
+							okc = sxSame(an, cfgAnn) && only && mtArg != nil && (wantDefault && sxSame(mtArg, sxStr(unkCfg)) || !wantDefault && sxSame(mtArg, art))
 						}
 						check("config", okc, "without a config descriptor a generated config of media type artifactType (default "+unkCfg+") with opts.ConfigAnnotations is used",
 							"the generated config does not carry artifactType / the default / ConfigAnnotations (got "+sxDescribe(cfg)+")")
@@ -1230,6 +1248,23 @@ func c19R5(c *Ctx, a *c19Anchors) {
 		}
 	}
 	agg.flush()
+}
+
+// c19DescMediaType: the media type a descriptor term carries: the MediaType
+// field if it was set after construction, else the one given to
+// NewDescriptorFromBytes.
+func c19DescMediaType(d sxVal, descT types.Type) sxVal {
+	if st, ok := d.(sxStruct); ok {
+		for k, n := range st.names {
+			if n == "MediaType" {
+				return st.fields[k]
+			}
+		}
+	}
+	if b, ok := sxBase(d).(sxCall); ok && b.rec.Name == c19NNewDesc && len(b.rec.Args) == 2 {
+		return b.rec.Args[0]
+	}
+	return nil
 }
 
 func c19DescType(c *Ctx) types.Type {
